@@ -60,7 +60,7 @@ pub fn normalize_cv(cv: &CV) -> CV {
 }
 
 #[derive(Clone)]
-pub enum Entry { Val(RV), Alias(Rc<(Vec<String>, Type, Env)>), TyVal(Rc<(Type, Env)>) }
+pub enum Entry { Val(RV), Alias(Rc<(Vec<String>, Type, Env)>), TyVal(Rc<(Type, Env)>), /** a type variable of a generic function, for the structural argument check only: anything inhabits it */ AnyTy }
 
 #[derive(Clone, Default)]
 pub struct Env(Option<Rc<EnvNode>>);
@@ -265,8 +265,9 @@ impl Interp {
                     let param = if cur.nilary { nil() } else { a };
                     // the declared parameter type is part of the program: an argument outside it makes the call ill-typed
                     if !cur.def.type_parameters.is_empty() { self.bump("generic_function_applied"); }
-                    // (a generic function's parameter mentions type variables the evaluator does not solve: not checked)
-                    if let (Some(pt), true) = (cur.def.parameter_type.clone(), cur.def.type_parameters.is_empty()) { let fenv = cur.env.clone(); match self.type_member(&param, &pt, &fenv, &mut vec![]) { Ok(true) => {} Ok(false) => { if via_tail { self.bump("tail_call_argument_outside_parameter_type"); } return Err(Ctl::TypeError("argument outside the declared parameter type".into())) }, Err(Ctl::Unsupported(_)) => {} Err(e) => return Err(e) } }
+                    // (a generic function's type variables are not solved: they are wildcards here, so only the argument's
+                    // structure is checked — a "not a member" verdict holds under every instantiation)
+                    if let Some(pt) = cur.def.parameter_type.clone() { let mut fenv = cur.env.clone(); for tp in &cur.def.type_parameters { fenv = fenv.bind(&format!("'{}", tp.trim_start_matches('\'')), Entry::AnyTy); } match self.type_member(&param, &pt, &fenv, &mut vec![]) { Ok(true) => {} Ok(false) => { if via_tail { self.bump("tail_call_argument_outside_parameter_type"); } return Err(Ctl::TypeError("argument outside the declared parameter type".into())) }, Err(Ctl::Unsupported(_)) => {} Err(e) => return Err(e) } }
                     let Some(body) = &cur.def.body else { return Ok(param) };
                     let env = cur.env.bind("$", Entry::Val(param.clone())).bind("^self", Entry::Val(RV::Fn(cur.clone())));
                     match self.eval_block(body, param, &env) {
@@ -407,6 +408,7 @@ impl Interp {
                         let mut fresh = vec![];
                         self.type_member(v, &a.1, &aenv, &mut fresh)?
                     }
+                    Some(Entry::AnyTy) => true,
                     Some(Entry::TyVal(tv)) => { let tv = tv.clone(); let mut fresh = vec![]; self.type_member(v, &tv.0, &tv.1, &mut fresh)? }
                     _ => return unsup("unknown type name (type variable?)"),
                 }
